@@ -2,34 +2,14 @@
    with the same sort key (TTL, RData::to_bytes) have the same canonical emission; and when that
    proviso holds. *)
 From Coq Require Import Sorting.Sorted Sorting.Permutation.
-From HV Require Import Lib.Base C05.Model C05.NameProofs C05.OrderProofs C05.EncodeProofs C05.GuardProofs.
+From HV Require Import Lib.Base C05.Model C05.NameProofs C05.OrderProofs C05.EncodeProofs C05.GuardProofs
+  C05.ShapeProofs C05.CompressProofs.
 Open Scope N_scope.
 
 Definition ic (r : rr) : list byte := impl_canon (r_type r) (r_data r).
 
 Definition key_determines_output (set : list rr) : Prop :=
   forall a b, In a set -> In b set -> r_ttl a = r_ttl b -> tb a = tb b -> ic a = ic b.
-
-(* [n] character-strings (length octet + octets) one after the other *)
-Inductive cs_seq : nat -> list byte -> Prop :=
-| cs_nil : cs_seq O []
-| cs_cons : forall n s rest, cs_seq n rest -> cs_seq (S n) (len s :: s ++ rest).
-(* [k] fixed octets followed by [n] character-strings (e.g. NAPTR: 4 and 3) *)
-Definition framed (k n : nat) (a : list byte) : Prop :=
-  exists p q, a = p ++ q /\ length p = k /\ cs_seq n q.
-
-(* field lists with the same layout: names at the same positions; octet fields of the same
-   length, or self-delimiting with the same frame, except the last *)
-Inductive same_shape : list field -> list field -> Prop :=
-| ss_nil : same_shape [] []
-| ss_last : forall a b, same_shape [FB a] [FB b]
-| ss_fb : forall a b f1 f2, length a = length b -> same_shape f1 f2 -> same_shape (FB a :: f1) (FB b :: f2)
-| ss_framed : forall k n a b f1 f2, framed k n a -> framed k n b -> same_shape f1 f2 ->
-    same_shape (FB a :: f1) (FB b :: f2)
-| ss_fn : forall a b f1 f2, same_shape f1 f2 -> same_shape (FN a :: f1) (FN b :: f2).
-
-Fixpoint count_names (fs : list field) : nat :=
-  match fs with [] => O | FN _ :: fs' => S (count_names fs') | FB _ :: fs' => count_names fs' end.
 
 (* ---------------------------------------------------------------- permutation invariance *)
 
@@ -136,183 +116,6 @@ Proof.
   destruct H as (ps & H). now rewrite H.
 Qed.
 
-Lemma find_ptr_none ps s :
-  (forall st m, In (st, m) ps -> length m <> length s) -> find_ptr ps s = None.
-Proof.
-  induction ps as [|[st m] ps IH]; intros H; cbn [find_ptr]; [reflexivity|].
-  destruct (bytes_eqb m s) eqn:E.
-  - apply bytes_eqb_eq in E. subst. exfalso. apply (H st s); [now left|reflexivity].
-  - apply IH. intros st' m' Hin. apply (H st' m'). now right.
-Qed.
-
-Lemma enc_labels_cons l ls : enc_labels (l :: ls) = enc_label l ++ enc_labels ls.
-Proof. reflexivity. Qed.
-
-(* a name emitted when every stored suffix is longer than the name is not compressed *)
-Lemma compress_no_match ls : forall off last ps pre,
-  (forall st m, In (st, m) ps -> (length (enc_labels ls) < length m)%nat) ->
-  exists ps', compress off last ps pre ls = (pre ++ enc_labels ls ++ [0], ps', false).
-Proof.
-  induction ls as [|l ls IH]; intros off last ps pre Hps; cbn [compress].
-  - eexists. reflexivity.
-  - rewrite find_ptr_none.
-    2:{ intros st m Hin. specialize (Hps st m Hin). lia. }
-    assert (Hlen : (length (enc_labels ls) < length (enc_labels (l :: ls)))%nat).
-    { rewrite enc_labels_cons, app_length. unfold enc_label. cbn [length]. lia. }
-    destruct (IH off last (store_ptr last ps (off + len pre) (enc_labels (l :: ls))) (pre ++ enc_label l)) as (ps' & H).
-    + intros st m Hin. unfold store_ptr in Hin.
-      destruct ((last <? 16383) && (len ps <? 64)).
-      * apply in_app_or in Hin. destruct Hin as [Hin|[Hin|[]]].
-        -- specialize (Hps st m Hin). lia.
-        -- inversion Hin; subst. exact Hlen.
-      * specialize (Hps st m Hin). lia.
-    + exists ps'. rewrite H. rewrite enc_labels_cons, <- !app_assoc. reflexivity.
-Qed.
-
-Lemma emit_name_first off ls :
-  wf_labels ls ->
-  if MAX <? off + len (wire_name ls) then emit_name Compressed off [] ls = None
-  else exists ps', emit_name Compressed off [] ls = Some (wire_name ls, ps').
-Proof.
-  intros [Hl H255]. unfold emit_name. rewrite (no_long_label ls Hl).
-  assert (Hlen : len (wire_name ls) = len (enc_labels ls) + 1).
-  { unfold wire_name. rewrite len_app, len_cons, len_nil. lia. }
-  destruct (compress_no_match ls off (off + len (enc_labels ls)) [] []) as (ps' & H).
-  { intros st m []. }
-  rewrite H. cbn [app]. fold (wire_name ls).
-  destruct (MAX <? off + len (wire_name ls)) eqn:E.
-  - destruct (MAX <? off + len (enc_labels ls)); [reflexivity|]. reflexivity.
-  - apply N.ltb_ge in E.
-    replace (MAX <? off + len (enc_labels ls)) with false by (symmetry; apply N.ltb_ge; lia).
-    replace (255 <? len (wire_name ls)) with false by (symmetry; apply N.ltb_ge; lia).
-    cbn [orb]. eauto.
-Qed.
-
-Lemma emit_fields_no_names m fs : forall off ps,
-  count_names fs = O -> off <= MAX ->
-  emit_fields m off ps fs = if MAX <? off + len (raw_fields fs) then None else Some (raw_fields fs, ps).
-Proof.
-  induction fs as [|[bs|ls] fs IH]; intros off ps Hc Hoff; cbn [emit_fields emit_field count_names] in *; try discriminate.
-  - cbn. replace (MAX <? off + 0) with false by (symmetry; apply N.ltb_ge; lia). reflexivity.
-  - unfold raw_fields. cbn [map concat raw_field]. fold (raw_fields fs). rewrite len_app.
-    destruct (MAX <? off + len bs) eqn:E1.
-    + apply N.ltb_lt in E1.
-      replace (MAX <? off + (len bs + len (raw_fields fs))) with true by (symmetry; apply N.ltb_lt; lia). reflexivity.
-    + apply N.ltb_ge in E1. rewrite (IH (off + len bs) ps Hc E1).
-      replace (off + (len bs + len (raw_fields fs))) with (off + len bs + len (raw_fields fs)) by lia.
-      destruct (MAX <? off + len bs + len (raw_fields fs)); reflexivity.
-Qed.
-
-Lemma emit_fields_one_name fs : forall off,
-  (count_names fs <= 1)%nat -> Forall wf_field fs -> off <= MAX ->
-  if MAX <? off + len (raw_fields fs) then emit_fields Compressed off [] fs = None
-  else exists ps', emit_fields Compressed off [] fs = Some (raw_fields fs, ps').
-Proof.
-  induction fs as [|[bs|ls] fs IH]; intros off Hc Hwf Hoff; cbn [emit_fields emit_field count_names] in *.
-  - cbn. replace (MAX <? off + 0) with false by (symmetry; apply N.ltb_ge; lia). eauto.
-  - inversion Hwf as [|? ? _ Hfs]; subst.
-    unfold raw_fields. cbn [map concat raw_field]. fold (raw_fields fs). rewrite len_app.
-    destruct (MAX <? off + len bs) eqn:E1.
-    + apply N.ltb_lt in E1.
-      replace (MAX <? off + (len bs + len (raw_fields fs))) with true by (symmetry; apply N.ltb_lt; lia). reflexivity.
-    + apply N.ltb_ge in E1. specialize (IH (off + len bs) Hc Hfs E1).
-      replace (off + (len bs + len (raw_fields fs))) with (off + len bs + len (raw_fields fs)) by lia.
-      destruct (MAX <? off + len bs + len (raw_fields fs)).
-      * now rewrite IH.
-      * destruct IH as (ps' & IH). rewrite IH. eauto.
-  - inversion Hwf as [|? ? Hls Hfs]; subst. cbn [wf_field] in Hls.
-    unfold raw_fields. cbn [map concat raw_field]. fold (raw_fields fs). rewrite len_app.
-    pose proof (emit_name_first off ls Hls) as H1.
-    destruct (MAX <? off + len (wire_name ls)) eqn:E1.
-    + rewrite H1. apply N.ltb_lt in E1.
-      replace (MAX <? off + (len (wire_name ls) + len (raw_fields fs))) with true by (symmetry; apply N.ltb_lt; lia).
-      reflexivity.
-    + destruct H1 as (ps1 & H1). rewrite H1. apply N.ltb_ge in E1.
-      rewrite (emit_fields_no_names Compressed fs (off + len (wire_name ls)) ps1 ltac:(lia) E1).
-      replace (off + (len (wire_name ls) + len (raw_fields fs))) with (off + len (wire_name ls) + len (raw_fields fs)) by lia.
-      destruct (MAX <? off + len (wire_name ls) + len (raw_fields fs)); eauto.
-Qed.
-
-(* RDATA with at most one name is never compressed in the sort key *)
-Lemma to_bytes_one_name t fs :
-  (count_names fs <= 1)%nat -> Forall wf_field fs -> len (raw_fields fs) <= 65535 ->
-  to_bytes t fs = raw_fields fs.
-Proof.
-  intros Hc Hwf Hl. destruct (impl_policy t) as [[| |]|] eqn:E;
-    try (apply to_bytes_uncompressed; [rewrite E; discriminate|assumption|assumption]).
-  unfold to_bytes, emit_rdata. rewrite E. cbn [with_rdata_behavior].
-  pose proof (emit_fields_one_name fs 0 Hc Hwf ltac:(unfold MAX; lia)) as H.
-  replace (MAX <? 0 + len (raw_fields fs)) with false in H by (symmetry; apply N.ltb_ge; unfold MAX; lia).
-  destruct H as (ps & H). now rewrite H.
-Qed.
-
-(* --- the uncompressed wire form determines the fields, given the layout *)
-
-Lemma app_inj_length {A} (a b x y : list A) : length a = length b -> a ++ x = b ++ y -> a = b /\ x = y.
-Proof.
-  revert b. induction a as [|h a IH]; intros [|h' b] Hl H; cbn in *; try discriminate.
-  - now split.
-  - inversion H; subst. destruct (IH b ltac:(lia) H2) as [-> ->]. now split.
-Qed.
-
-Lemma wire_name_cons_app l ls r : wire_name (l :: ls) ++ r = len l :: l ++ (wire_name ls ++ r).
-Proof.
-  unfold wire_name. rewrite enc_labels_cons. unfold enc_label. cbn [app]. now rewrite <- !app_assoc.
-Qed.
-
-Lemma wire_name_inj l1 : forall l2 r1 r2,
-  Forall wf_label l1 -> Forall wf_label l2 ->
-  wire_name l1 ++ r1 = wire_name l2 ++ r2 -> l1 = l2 /\ r1 = r2.
-Proof.
-  induction l1 as [|a l1 IH]; intros [|b l2] r1 r2 H1 H2 H.
-  - cbn in H. inversion H. now split.
-  - exfalso. rewrite wire_name_cons_app in H. cbn in H. injection H as Hz _.
-    inversion H2 as [|? ? [Hn _] _]; subst. destruct b; [congruence|]. unfold len in Hz. cbn [length] in Hz. lia.
-  - exfalso. rewrite wire_name_cons_app in H. cbn in H. injection H as Hz _.
-    inversion H1 as [|? ? [Hn _] _]; subst. destruct a; [congruence|]. unfold len in Hz. cbn [length] in Hz. lia.
-  - rewrite !wire_name_cons_app in H. injection H as Hlen Hrest.
-    inversion H1 as [|? ? _ H1']; subst. inversion H2 as [|? ? _ H2']; subst.
-    assert (Hl : length a = length b) by (unfold len in Hlen; lia).
-    destruct (app_inj_length a b _ _ Hl Hrest) as [-> Hrest'].
-    destruct (IH l2 r1 r2 H1' H2' Hrest') as [-> ->]. now split.
-Qed.
-
-Lemma cs_seq_inj n : forall a b x y, cs_seq n a -> cs_seq n b -> a ++ x = b ++ y -> a = b /\ x = y.
-Proof.
-  induction n as [|n IH]; intros a b x y Ha Hb H; inversion Ha; inversion Hb; subst.
-  - now split.
-  - cbn [app] in H. injection H as Hlen Hrest. rewrite <- !app_assoc in Hrest.
-    assert (Hl : length s = length s0) by (unfold len in Hlen; lia).
-    destruct (app_inj_length s s0 _ _ Hl Hrest) as [-> Hrest'].
-    destruct (IH _ _ _ _ H1 H4 Hrest') as [-> ->]. now split.
-Qed.
-
-Lemma framed_inj k n a b x y : framed k n a -> framed k n b -> a ++ x = b ++ y -> a = b /\ x = y.
-Proof.
-  intros (p1 & q1 & -> & Hp1 & Hq1) (p2 & q2 & -> & Hp2 & Hq2) H.
-  rewrite <- !app_assoc in H.
-  destruct (app_inj_length p1 p2 _ _ ltac:(congruence) H) as [-> H'].
-  destruct (cs_seq_inj n _ _ _ _ Hq1 Hq2 H') as [-> ->]. now split.
-Qed.
-
-Lemma raw_fields_inj f1 f2 :
-  same_shape f1 f2 -> Forall wf_field f1 -> Forall wf_field f2 ->
-  raw_fields f1 = raw_fields f2 -> f1 = f2.
-Proof.
-  induction 1 as [|a b|a b f1 f2 Hl _ IH|k n a b f1 f2 Ha Hb _ IH|a b f1 f2 _ IH]; intros H1 H2 H.
-  - reflexivity.
-  - unfold raw_fields in H. cbn in H. rewrite !app_nil_r in H. now subst.
-  - inversion H1 as [|? ? _ H1']; subst. inversion H2 as [|? ? _ H2']; subst.
-    unfold raw_fields in H. cbn [map concat raw_field] in H.
-    destruct (app_inj_length a b _ _ Hl H) as [-> H']. f_equal. now apply IH.
-  - inversion H1 as [|? ? _ H1']; subst. inversion H2 as [|? ? _ H2']; subst.
-    unfold raw_fields in H. cbn [map concat raw_field] in H.
-    destruct (framed_inj k n a b _ _ Ha Hb H) as [-> H']. f_equal. now apply IH.
-  - inversion H1 as [|? ? Ha H1']; subst. inversion H2 as [|? ? Hb H2']; subst.
-    unfold raw_fields in H. cbn [map concat raw_field] in H.
-    destruct (wire_name_inj a b _ _ (proj1 Ha) (proj1 Hb) H) as [-> H']. f_equal. now apply IH.
-Qed.
-
 Lemma impl_lower_false_policy t : impl_lower t = false -> impl_policy t <> Some StandardRecord.
 Proof. unfold impl_lower. destruct (impl_policy t) as [[| |]|]; congruence. Qed.
 
@@ -321,7 +124,7 @@ Theorem key_determines_sufficient set :
   (forall a b, In a set -> In b set -> r_type a = r_type b) ->
   (forall a b, In a set -> In b set -> a = b) \/
   (forall a, In a set -> impl_lower (r_type a) = false) \/
-  (forall a b, In a set -> In b set -> same_shape (r_data a) (r_data b) /\ (count_names (r_data a) <= 1)%nat) ->
+  (forall a b, In a set -> In b set -> same_shape (r_data a) (r_data b)) ->
   key_determines_output set.
 Proof.
   intros Hwf Hty Hcase a b Ha Hb _ Htb. unfold tb, ic in *.
@@ -331,9 +134,8 @@ Proof.
     rewrite (to_bytes_uncompressed _ _ (impl_lower_false_policy _ La) Hfa Hla) in Htb.
     rewrite (to_bytes_uncompressed _ _ (impl_lower_false_policy _ Lb) Hfb Hlb) in Htb.
     unfold impl_canon. rewrite La, Lb, <- !raw_fields_canon. exact Htb.
-  - destruct (Hshape a b Ha Hb) as [Hs Hca]. destruct (Hshape b a Hb Ha) as [_ Hcb].
-    rewrite (to_bytes_one_name _ _ Hca Hfa Hla), (to_bytes_one_name _ _ Hcb Hfb Hlb) in Htb.
-    rewrite (raw_fields_inj _ _ Hs Hfa Hfb Htb), (Hty a b Ha Hb). reflexivity.
+  - rewrite (Hty a b Ha Hb) in *.
+    now rewrite (to_bytes_inj _ _ _ (Hshape a b Ha Hb) Hfa Hfb Hla Hlb Htb).
 Qed.
 
 (* ---------------------------------------------------------------- owner case and TTL shifts *)
@@ -457,4 +259,25 @@ Proof.
     exact (Hr r0 Hin).
   - rewrite (rrset_retarget nm nm' cls s rs ren g Hnm Hren). apply key_determines_retarget; [|assumption].
     intros a b Ha Hb. unfold the_rrset in Ha, Hb. apply filter_In in Ha, Hb. apply Hg; tauto.
+Qed.
+
+(* ---------------------------------------------------------------- RRsets of one layout *)
+
+(* the records of the RRset have names at the same positions (true of records of one type) *)
+Definition uniform_layout (set : list rr) : Prop :=
+  forall a b, In a set -> In b set -> same_shape (r_data a) (r_data b).
+
+Lemma rrset_type nm cls s rs a : In a (the_rrset nm cls s rs) -> r_type a = s_type s.
+Proof.
+  unfold the_rrset. intros H. apply filter_In in H. destruct H as [_ H].
+  unfold rrset_member in H. apply andb_true_iff in H. destruct H as [H _].
+  apply andb_true_iff in H. destruct H as [_ H]. now apply N.eqb_eq.
+Qed.
+
+Lemma key_determines_rrset nm cls s rs :
+  Forall wf_rr (the_rrset nm cls s rs) -> uniform_layout (the_rrset nm cls s rs) ->
+  key_determines_output (the_rrset nm cls s rs).
+Proof.
+  intros Hwf Hu. apply key_determines_sufficient; [assumption| |right; right; exact Hu].
+  intros a b Ha Hb. now rewrite (rrset_type _ _ _ _ _ Ha), (rrset_type _ _ _ _ _ Hb).
 Qed.
